@@ -27,6 +27,7 @@ def run(ctx):
     R.rule("C13-R1", "condition evaluation is control dependent on the group being a candidate", floor=4)
     R.rule("C13-R2", "(shared with C14) skipped operands are not evaluated", floor=3)
     R.rule("C13-R3", "conditional stack: push once per opening directive, pop only in #endif", floor=10)
+    R.rule("C13-R6", "__VA_ARGS__ expands to the variable arguments separated by commas", floor=1)
     R.rule("C13-R4", "(shared with C14) #if literals narrowed only under a magnitude test", floor=2)
     R.rule("C13-R5", "kept lines: a conditional opened inside a skipped group is inert (pushed with ignoring|finishedIf), a group is entered from #elif/#else only while no group was taken, and leaving the taken group marks the #if finished", floor=8)
 
@@ -150,6 +151,22 @@ def run(ctx):
     ok = len(pc) == 1 and any(pol and noid(k).replace(" ", "") == "(this->status&occa::lang::ppStatus::foundIf)" for (k, pol) in fs_.facts_at(pc[0]))
     R.ob("C13-R3", ok, en.q, "#endif pops iff inside an #if", en.site(pc[0]) if pc else en.relfile, "pop guarded by foundIf")
     kept_lines(prog, R, pushers)
+    mp = ctx.program(["src/occa/internal/lang/macro.cpp"], thorough_all=False)
+    me = mp.fn("occa::lang::macroArgument::expand")
+    loops = [n for n in me.walk() if n["k"] in ("ForStmt", "WhileStmt") and not n.get("mac") and any(is_call(c) and callee(c).endswith("macroArgument::expandArg") for c in walk(n))]
+    if len(loops) != 1:
+        raise AnalysisBroken("macroArgument::expand: the loop over the variable arguments was not found")
+    commas = [c for c in walk(loops[0]) if is_call(c) and callee(c).endswith("::push_back") and
+              any(x["k"] == "DeclRefExpr" and x.get("n") == "occa::lang::op::comma" for x in walk(c))]
+    okc = False
+    for c in commas:
+        fs = {noid(k).replace(" ", "") for (k, pol) in me.cfg.facts_at(c) if pol}
+        # between arguments only: guarded by `i > first` (not emitted before the first variable argument)
+        if any((">" in k or "!=" in k) and "argc" in k for k in fs):
+            okc = True
+    R.ob("C13-R6", okc, me.q, "a comma token is emitted between consecutive variable arguments", me.site(commas[0]) if commas else me.site(loops[0]),
+         "the separators consumed while the arguments were collected are re-inserted" if okc else
+         "the variable arguments are concatenated: `#define V(a, ...) a + __VA_ARGS__` turns V(1, 2, 3) into `1 + 2 3`")
 
 
 def _flags(e):
